@@ -85,8 +85,7 @@ def r1_who(report, repo):
                    '%s is written in %s' % (attr, owner))
 
 
-def r2_construct_once(report, repo):
-  rule = 'C08-R2'
+def r2_construct_once(report, repo, rule='C08-R2'):
   report.rule(rule, 'T-DOM/T-MUST: the constructor call is dominated by '
               '"plug_type not in self._plugs_by_type"; the instance is '
               'registered before the next iteration; logger swap restored in '
